@@ -14,7 +14,7 @@
 (***************************************************************************)
 EXTENDS CssGen
 
-CONSTANTS NParts, Family, Export, NestDepth, Small
+CONSTANTS NParts, Family, Export, NestDepth, Small, ValStride
 
 PSel(s) == [t |-> "sel", s |-> s, c |-> NoCond, n |-> <<>>]
 PCond(t, c) == [t |-> t, s |-> "", c |-> c, n |-> <<>>]
@@ -52,8 +52,30 @@ ShortChoices == {<<"short", p, n, a, b, c, d>> : p \in 1..3, n \in 1..4, a \in 1
 ShortDecl(c) == [p |-> <<"margin", "padding", "inset">>[c[2]], v |-> SubSeq(<<LenVals[c[4]], LenVals[c[5]], LenVals[c[6]], LenVals[c[7]]>>, 1, c[3]),
                  sp |-> SubSeq(<<1, 1, 1, 1>>, 1, c[3]), i |-> FALSE]
 
+\* every spelling of every grid value (CssVals), in a colour / length context each: longhand, shorthand, second longhand
+ValKeys == SetToSeq(DOMAIN GridVals)
+ValsChoices == {<<"vals", vi, k>> : vi \in 1..Len(ValKeys), k \in 1..12} \cap
+               {c \in {<<"vals", vi, k>> : vi \in 1..Len(ValKeys), k \in 1..12} :
+                   c[3] <= Len(GridVals[ValKeys[c[2]]].sp) /\ (c[2] + c[3]) % ValStride = 0}
+ValsSheet(c) ==
+  LET v == ValKeys[c[2]] IN
+  IF GridVals[v].kind = "color"
+  THEN << RuleItem(<<PSel(".a")>>, <<D1("color", v, c[3], FALSE)>>),
+          RuleItem(<<PSel("p")>>, <<D1("background", v, c[3], FALSE)>>),
+          RuleItem(<<PSel("#s")>>, <<D1("border-top-color", v, c[3], FALSE), D1("outline-color", v, 1, TRUE)>>) >>
+  ELSE << RuleItem(<<PSel(".a")>>, <<D1("margin-top", v, c[3], FALSE)>>),
+          RuleItem(<<PSel("p")>>, <<[p |-> "margin", v |-> <<v, v>>, sp |-> <<c[3], 1>>, i |-> FALSE]>>),
+          RuleItem(<<PSel("#s")>>, <<D1("top", v, c[3], FALSE), D1("left", v, 1, TRUE)>>) >>
+\* in a browser that understands everything the value that wins is the canonical value
+ValsCheck(c) ==
+  Bind(ValsSheet(c), LAMBDA sh :
+    /\ WFSheet(sh)
+    /\ LET p == IF GridVals[ValKeys[c[2]]].kind = "color" THEN "color" ELSE "margin-top" IN
+       Winner(sh, [feats |-> SheetFeats(sh), conds |-> [a \in {} |-> TRUE]], 1, p) = Canon(ValKeys[c[2]]))
+
 FamChoices(dummy) == CASE Family = "casc" -> CascChoices [] Family = "nest" -> NestChoices [] Family = "short" -> ShortChoices
-                       [] Family = "all" -> CascChoices \cup NestChoices \cup ShortChoices
+                       [] Family = "vals" -> ValsChoices
+                       [] Family = "all" -> CascChoices \cup NestChoices \cup ShortChoices \cup ValsChoices
 \* a cheap spreading function over the parts
 RECURSIVE SumFrom(_, _)
 SumFrom(c, k) == IF k > Len(c) THEN 0 ELSE c[k] * k + SumFrom(c, k + 1)
@@ -69,6 +91,7 @@ CascCheck(c) == Bind(CascSheet(c), LAMBDA sh :
 NestCheck(c) == NestEquiv(NestLists(c))
 ShortCheck(c) == WFDecl(ShortDecl(c)) /\ ShorthandLaw(ShortDecl(c))
 FamCheck(c) == CASE c[1] = "casc" -> CascCheck(c) [] c[1] = "nest" -> NestCheck(c) [] c[1] = "short" -> ShortCheck(c)
+                 [] c[1] = "vals" -> ValsCheck(c)
 
 MCInit == part \in 1..NParts /\ ch = <<>> /\ ok = TRUE /\ gen_i = 0 /\ gen_out = FALSE
 MCNext == /\ ch = <<>>
@@ -76,6 +99,7 @@ MCNext == /\ ch = <<>>
           /\ ok' = FamCheck(ch')
           /\ part' = part /\ UNCHANGED <<gen_i, gen_out>>
           /\ (Export /\ ch'[1] = "casc") => PrintT(<<"CASE", ToJson(Bind(CascSheet(ch'), LAMBDA sh : CaseOf(ch', sh) @@ [items |-> sh]))>>)
+          /\ (Export /\ ch'[1] = "vals") => PrintT(<<"CASE", ToJson(Bind(ValsSheet(ch'), LAMBDA sh : CaseOf(ch', sh) @@ [items |-> sh]))>>)
 MCSpec == MCInit /\ [][MCNext]_vars
 \* WinnerUnique + LayerOrderTotal (casc), NestEquiv (nest), ShorthandLaw (short) hold for every enumerated member
 FamilyOK == ok
